@@ -52,6 +52,8 @@ RULE = ('random class diagrams (1-5 classes, 0-6 relationships of every kind inc
         'if it has edits, the edits change the result; distinct = distinct case content')
 EXHAUSTIVE = {'quick': False, 'thorough': False}
 ASSUMPTIONS = [
+    'unresolved populations (a relationship names a class / attribute row that does not exist) are outside the property: '
+    'D demands nothing there, K compares the ending (AttributeError) with buildOutcome of the model',
     'domain: well-formed populations — acyclic containment and user-type chains, one R103 chain per class, distinct '
     'key letters / attribute names per class / relationship numbers / component names, formalised simple relationships, '
     'every relationship in scope has its classes in scope, referred identifiers consist of kept attributes, no EP_PKGREF',
@@ -250,6 +252,13 @@ def generate(ctx):
                 free.append(e)
             yield {'src': 'synth', 'diagram': d, 'comp': nm, 'drv': drv, 'edits': free, 'entry': 'mk',
                    'perm': r.randint(1, 1 << 30)}
+        if i % 4 == 2:
+            # unresolved: a relationship names a class / attribute row that does not exist - the extractor dereferences
+            # None (AttributeError); the model reports the same ending (buildOutcome)
+            broken = E.break_resolution(r, d, lambda: 10 ** 7 + r.randint(1, 10 ** 6))
+            if broken is not None:
+                yield {'src': 'synth', 'diagram': broken, 'comp': None, 'drv': drv, 'edits': [],
+                       'entry': r.choice(['mk', 'build']), 'perm': r.randint(1, 1 << 30), 'unresolved': True}
         if i % 3 == 1:
             # the file gen_sql_schema.main writes, character by character (rows in modeled order: the order of the
             # CREATE UNIQUE INDEX lines, of the key lists and of equal-numbered CREATE ROP lines is then defined)
@@ -315,6 +324,10 @@ def run_impl(case):
     for e in edits:
         d1 = E.py_apply_edit(d1, e)
     sel0, sel1 = E.py_select_comp(d0, name), E.py_select_comp(d1, name)
+    unresolved = sel0[0] == 'ok' and not E.py_resolved(d0, sel0[1])
+    stats['unresolved'] = int(unresolved)
+    if unresolved:
+        return _run_unresolved(case, stats)
     want0 = E.py_extract(d0, sel0[1], drv) if sel0[0] == 'ok' else None
     want1 = E.py_extract(d1, sel1[1], drv) if sel1[0] == 'ok' else None
     def0 = want0 is not None and E.py_definable(want0)
@@ -437,6 +450,29 @@ def run_impl(case):
     nontrivial = bool(in_scope and (not edits or want0 != want1))
     key = hashlib.sha1(json.dumps(case, sort_keys=True, default=str).encode()).hexdigest()
     return {'obs': obs, 'd_fail': fails[:3], 'nontrivial': nontrivial, 'key': key, 'stats': stats}
+
+
+def _run_unresolved(case, stats):
+    """a relationship in scope refers to a row that does not exist: outside the property's domain (D demands nothing);
+    the ending of the real build is compared with the model's (K)"""
+    xtuml, ooaofooa = _ctx['xtuml'], _ctx['ooaofooa']
+    name, drv = case['comp'], case['drv']
+    with tempfile.TemporaryDirectory(dir=_ctx['tmp']) as tmpdir:
+        loader, _ = _loader_for(case, tmpdir)
+        try:
+            if case['entry'] == 'mk':
+                m = loader.build_metamodel()
+                c_c = m.select_any('C_C', xtuml.where_eq(Name=name)) if name is not None else None
+                got = E.canon_metamodel(ooaofooa.mk_component(m, c_c, drv))
+            else:
+                got = E.canon_metamodel(loader.build_component(name, drv))
+            obs = ['ok', got, got]
+        except AttributeError:
+            obs = ['error', 'AttributeError']
+        except xtuml.MetaModelException:
+            obs = ['error', 'MetaModelException']
+    key = hashlib.sha1(json.dumps(case, sort_keys=True, default=str).encode()).hexdigest()
+    return {'obs': obs, 'd_fail': [], 'nontrivial': False, 'key': key, 'stats': stats}
 
 
 class _AfterEdits(Exception):
